@@ -228,15 +228,18 @@ impl ByteCompiler<'_> {
                 self.patch_jump(return_method_undefined);
                 self.patch_jump(resume_return);
 
+                let value = self.alloc_return_value_register();
                 if self.is_async() {
                     self.bytecode.emit_await(dst.variable());
                     self.bytecode.emit_pop();
+                    self.pop_into_register(&value);
                 } else {
-                    self.push_from_register(dst);
+                    self.bytecode.emit_move(value.variable(), dst.variable());
                 }
                 self.close_active_iterators();
 
-                self.r#return(true);
+                self.r#return(Some(&value));
+                self.dealloc_return_value_register(value);
 
                 self.patch_jump(throw_method_undefined);
 
